@@ -126,6 +126,7 @@ type nbtGen struct {
 	keyPool  [][]byte // keys that hit the fields of the fixed struct types
 	bigLeft  int      // how many very long strings may still be generated
 	maxDepth int
+	noFloat  bool // never generate Float / Double (for texts that go through the SNBT float formatting)
 }
 
 var nbtFieldKeys = []string{"a", "A", "Bee", "bee", "BEE", "bEe", "x", "X", "m", "M", "z", "Z", "inner", "Inner", "INNER", "Num", "num", "note", "Note", "q", "", "aa", "be"}
@@ -241,6 +242,9 @@ func (g *nbtGen) tree(tag byte, depth int) *nbtNode {
 			}
 		}
 	}
+	if g.noFloat && (tag == 5 || tag == 6) {
+		tag = 3
+	}
 	n := &nbtNode{tag: tag}
 	switch tag {
 	case 1:
@@ -269,6 +273,9 @@ func (g *nbtGen) tree(tag byte, depth int) *nbtNode {
 			}
 		} else {
 			n.elem = byte(1 + r.Intn(12))
+		}
+		if g.noFloat && (n.elem == 5 || n.elem == 6) {
+			n.elem = 4
 		}
 		if c == 0 && r.Intn(2) == 0 {
 			n.elem = 0 // empty list with element type End
@@ -445,14 +452,14 @@ func nbtCanonFix2(sb *strings.Builder, v *nbtFix2) {
 
 // ---------- reader kinds ----------
 
-// zeroNilReader is a legal but awkward io.Reader: every other call returns (0, nil), and data comes in
+// nbtZeroNilReader is a legal but awkward io.Reader: every other call returns (0, nil), and data comes in
 // pieces of at most three bytes.
-type zeroNilReader struct {
+type nbtZeroNilReader struct {
 	r    *bytes.Reader
 	flip bool
 }
 
-func (z *zeroNilReader) Read(b []byte) (int, error) {
+func (z *nbtZeroNilReader) Read(b []byte) (int, error) {
 	z.flip = !z.flip
 	if z.flip || len(b) == 0 {
 		return 0, nil
@@ -474,7 +481,7 @@ func nbtDecode(dest, format, rk string, doc []byte) string {
 	case "rd":
 		r = plainReader{br}
 	case "rd0":
-		r = &zeroNilReader{r: br}
+		r = &nbtZeroNilReader{r: br}
 	}
 	var obs string
 	st := guardT(20*time.Second, func() {
